@@ -18,11 +18,11 @@ open GV GV.Gen GV.Xlate
 
 /-! ## `extract_bits` -/
 
-private theorem shrW_lt {a s : Nat} (hs : s < 64) : shrW a s = a >>> s := by
+theorem shrW_lt {a s : Nat} (hs : s < 64) : shrW a s = a >>> s := by
   unfold shrW; rw [Nat.mod_eq_of_lt hs, Nat.shiftRight_eq_div_pow]
 
 /-- `bits[read_from..read_from + 8]` as the model writes it -/
-private theorem slice_eq (bits : List Nat) (r : Nat) :
+theorem slice_eq (bits : List Nat) (r : Nat) :
     List.drop r (List.take (r + 8) bits) = (bits.drop r).take 8 := by
   rw [List.drop_take]; congr 1; omega
 
@@ -65,7 +65,7 @@ example : Fns.extract_bits_ok [1, 2, 3] 0 8 0 = false := by decide
 /-! ## `read_number` -/
 
 /-- the part of `read_number` after the read window `r` has been chosen -/
-private theorem rn_inner (bits : List Nat) (bitStart bitCount r : Nat)
+theorem rn_inner (bits : List Nat) (bitStart bitCount r : Nat)
     (hr : r + 8 ≤ bits.length) (hl : bits.length < 2^60) (hlo : r * 8 ≤ bitStart)
     (hhi : bitStart < r * 8 + 64) (hc : bitCount ≤ 63) (h0 : bitCount ≠ 0)
     (hs : bitStart + bitCount ≤ bits.length * 8)
